@@ -737,3 +737,77 @@ def r_rvsibling(repo, tier):
     if n < 40:
         raise AnalysisError("R-RVSIB: only %d common functions" % n)
     return out
+
+
+# ======================================================================================= x86 / x64 sibling functions
+X86_PAIRS = {
+    "amoco/arch/x86/asm.py": ("amoco/arch/x64/asm.py", ["C06"]),
+    "amoco/arch/x86/spec_ia32.py": ("amoco/arch/x64/spec_ia32e.py", ["C05", "C07"]),
+    "amoco/arch/x86/spec_fpu.py": ("amoco/arch/x64/spec_fpu.py", ["C05", "C07"]),
+    "amoco/arch/x86/utils.py": ("amoco/arch/x64/utils.py", ["C05", "C07"]),
+    "amoco/arch/x86/formats.py": ("amoco/arch/x64/formats.py", ["C17"]),
+}
+_REN64 = {"rip": "eip", "rsp": "esp", "rbp": "ebp", "rax": "eax", "rbx": "ebx", "rcx": "ecx", "rdx": "edx", "rsi": "esi", "rdi": "edi"}
+
+
+def sibling_dump(f, rename):
+    import copy
+
+    class R(ast.NodeTransformer):
+        def visit_Name(self, n):
+            return ast.copy_location(ast.Name(id=rename.get(n.id, n.id), ctx=n.ctx), n)
+
+    t = R().visit(copy.deepcopy(f.node))
+    return [norm(s) for s in t.body if not (isinstance(s, ast.Expr) and isinstance(s.value, ast.Constant) and isinstance(s.value.value, str))]
+
+
+def single_defs(m):
+    d, dup = {}, set()
+    for f in m.functions.values():
+        if f.cls is None and "." not in f.dqual:
+            if f.dqual in d:
+                dup.add(f.dqual)
+            d[f.dqual] = f
+    return {k: v for k, v in d.items() if k not in dup}
+
+
+def r_x86sibling(pid):
+    def rule(repo, tier):
+        out = RuleOut(
+            "R-X86SIB",
+            "the x86 and x64 packages carry sibling copies of many functions.  For every pair recorded in ref/x86_siblings.json -- "
+            "functions that were identical up to the names of the 64-bit registers on the reviewed tree -- the two bodies are still "
+            "identical up to that renaming whenever they have the same statement structure: a change applied to one sibling only "
+            "(same statements, one different expression) is reported; a restructured sibling is listed as undecided",
+        )
+        with open(os.path.join(VERIF, "ref", "x86_siblings.json")) as fh:
+            table = json.load(fh)["pairs"]
+        n = 0
+        for rel32, (rel64, pids) in X86_PAIRS.items():
+            if pid not in pids:
+                continue
+            a, b = single_defs(repo.mod(rel32)), single_defs(repo.mod(rel64))
+            for name in table.get(rel32, []):
+                if name not in a or name not in b:
+                    out.undecide(rel64, name, "sibling %s" % name, "one of the siblings is gone or re-defined")
+                    continue
+                da, db = sibling_dump(a[name], {}), sibling_dump(b[name], _REN64)
+                n += 1
+                if da == db:
+                    out.inst("%s::%s" % (rel32, name), None)
+                    continue
+                heads = lambda L: [x.split("=")[0].split("(")[0].strip() for x in L]
+                if len(da) != len(db) or heads(da) != heads(db):
+                    out.inst("%s::%s" % (rel32, name), {"function": name, "status": "restructured"}, nontrivial=False)
+                    out.undecide(rel64, name, "sibling %s" % name, "x86 and x64 versions no longer have the same statement structure; not compared")
+                    continue
+                k = next(i for i in range(len(da)) if da[i] != db[i])
+                out.inst("%s::%s" % (rel32, name), {"function": name, "status": "diverged", "x86": da[k][:80], "x64": db[k][:80]})
+                out.report(rel64, name, "sibling %s" % name, b[name].node.lineno, "%s was identical in x86 and x64 (up to register names) and now differs in one statement: x86 has `%s`, x64 has `%s` (%s:%d, %s:%d) -- a change was applied to one sibling only" % (name, da[k][:90], db[k][:90], rel32, a[name].node.lineno, rel64, b[name].node.lineno))
+        out.stats["pairs"] = n
+        if n < 5:
+            raise AnalysisError("R-X86SIB: only %d recorded sibling pairs found for %s" % (n, pid))
+        return out
+
+    rule.__name__ = "r_x86sibling_%s" % pid
+    return rule
